@@ -263,6 +263,13 @@ func Execute(t *testing.T, tape *simrt.Tape, tier string, keepLog bool, maxSim t
 		cfg.PCTDepth = 1 + tape.Draw(4)
 	}
 	cfg.PermIdent = []int{90, 50, 10}[tape.Draw(3)]
+	// swarm: the TLS version the clients of this run speak (1.2 differs where it matters to a
+	// stream reader: its alerts are visible as such on the record layer, so crypto/tls hands the
+	// last application data out together with the end of the stream)
+	tlsClientMax12 = tape.Draw(3) == 1
+	// swarm: knobs of the listeners and of the TLS material that no property is about, so that
+	// no verdict silently depends on one value of them
+	swarm = swarmKnobs{ConnBuf: []int{0, 0, 1, 8}[tape.Draw(4)], WSCompress: tape.Draw(4) == 1, CertVia: []int{0, 0, 1, 2}[tape.Draw(4)]}
 	res := simrt.Run(t, cfg, func() {
 		// package-level state of the library (listener registries and the like) starts afresh
 		lime.VerifResetGlobals()
@@ -282,7 +289,35 @@ var (
 	srvTLS    *tls.Config
 	cliTLS    *tls.Config
 	tlsGenErr error
+	// tlsClientMax12 is set per run (Execute): client configurations stop at TLS 1.2
+	tlsClientMax12 bool
+	swarm          swarmKnobs
 )
+
+// swarmKnobs are per-run choices (Execute) applied wherever the harness configures a listener.
+type swarmKnobs struct {
+	ConnBuf    int  // ConnBuffer of TCP and websocket listeners (accepted connections waiting for Accept)
+	WSCompress bool // permessage-deflate offered by websocket listeners and by the scripted websocket peers
+	CertVia    int  // how the server's tls.Config supplies its certificate: 0 Certificates, 1 GetCertificate, 2 GetConfigForClient
+}
+
+// SrvTCPConfig is the TCP listener configuration of this run.
+func SrvTCPConfig(withTLS bool) *lime.TCPConfig {
+	c := &lime.TCPConfig{ConnBuffer: swarm.ConnBuf}
+	if withTLS {
+		c.TLSConfig, _ = TLSConfigs()
+	}
+	return c
+}
+
+// SrvWSConfig is the websocket listener configuration of this run.
+func SrvWSConfig(withTLS bool) *lime.WebsocketConfig {
+	c := &lime.WebsocketConfig{ConnBuffer: swarm.ConnBuf, EnableCompression: swarm.WSCompress}
+	if withTLS {
+		c.TLSConfig, _ = TLSConfigs()
+	}
+	return c
+}
 
 // TLSConfigs returns a server and a client TLS configuration sharing one Ed25519
 // certificate that is valid around the bubble epoch (2000-01-01).
@@ -315,7 +350,22 @@ func TLSConfigs() (*tls.Config, *tls.Config) {
 	if tlsGenErr != nil {
 		panic(tlsGenErr)
 	}
-	return srvTLS.Clone(), cliTLS.Clone()
+	c := cliTLS.Clone()
+	if tlsClientMax12 {
+		c.MaxVersion = tls.VersionTLS12
+	}
+	sc := srvTLS.Clone()
+	switch swarm.CertVia {
+	case 1:
+		cert := sc.Certificates[0]
+		sc.Certificates = nil
+		sc.GetCertificate = func(*tls.ClientHelloInfo) (*tls.Certificate, error) { return &cert, nil }
+	case 2:
+		inner := sc.Clone()
+		sc.Certificates = nil
+		sc.GetConfigForClient = func(*tls.ClientHelloInfo) (*tls.Config, error) { return inner, nil }
+	}
+	return sc, c
 }
 
 // ---- small helpers ----
